@@ -370,6 +370,13 @@ def positions(rng, T, val, single, star=False):
         ('for i in [1] return %s in [0..99999999999999]' % T, [True]), ('[for i in [1] return i, %s in [0..99999999999999]][2]' % T, True),
         ('some i in [%s] satisfies i in [0..99999999999999]' % T, True),
     ]
+    if single:
+        # the name as an interval endpoint and as the operand of a unary comparison, inside a scope pushed by a binder while the name is bound in an
+        # ENCLOSING context (these positions resolve through Scope::search_deep; seeded change C10_g: only the context on top was consulted)
+        out += [('for i in [1] return %s in [%s..%s]' % (T, T, T), [True]), ('some i in [1] satisfies %s in [%s..%s]' % (T, T, T), True),
+                ('every i in [1] satisfies %s in (< %s, > %s, %s)' % (T, T, T, T), True), ('{r: %s in [%s..%s]}.r' % (T, T, T), True),
+                ('(function(q) q in [%s..%s])(%s)' % (T, T, T), True), ('[7][%s in [%s..%s]]' % (T, T, T), 7),
+                ('for i in [1] return {r: (function(q) q in (>= %s))(%s)}.r' % (T, T), [True]), ('%s in [%s..%s]' % (T, T, T), True)]
     return out
 
 
